@@ -262,10 +262,13 @@ impl Prop for C05 {
             let h = *r.pick(&[60u64, 200]);
             let h2 = *r.pick(&[60u64, 200, 300]);
             let v1 = *r.pick(&["tap-hold", "tap-hold-release", "tap-hold-press"]);
-            let v2 = *r.pick(&["tap-hold", "tap-hold-release"]);
+            let v2 = *r.pick(&["tap-hold", "tap-hold-release", "tap-dance"]);
             let mut case = Case { prop: "C05".into(), seed, ..Default::default() };
+            // (the second pending decision may also be a tap-dance: it must not take the place of
+            // the tap-hold decision either)
+            let chord_action = if v2 == "tap-dance" { format!("(tap-dance {h2} (p q))") } else { format!("({v2} 0 {h2} p q)") };
             case.cfg = format!(
-                "(defcfg concurrent-tap-hold yes)\n(defsrc a j k b)\n(deflayer l0 ({v1} 0 {h} x y) j k 1)\n(defchordsv2 (j k) ({v2} 0 {h2} p q) 50 {} ())\n",
+                "(defcfg concurrent-tap-hold yes)\n(defsrc a j k b)\n(deflayer l0 ({v1} 0 {h} x y) j k 1)\n(defchordsv2 (j k) {chord_action} 50 {} ())\n",
                 *r.pick(&["all-released", "first-release"])
             );
             let (a, j, k, b) = (oscode_of("a"), oscode_of("j"), oscode_of("k"), oscode_of("b"));
